@@ -65,9 +65,9 @@ class Lock:
 def build_dir():
     d = os.path.join(BUILD, "t-" + tree_hash())
     os.makedirs(d, exist_ok=True)
-    # prune older tree builds (keep the 3 most recent)
+    # prune older tree builds (keep the 12 most recent: several checks may run at once on different trees)
     ds = sorted(glob.glob(os.path.join(BUILD, "t-*")), key=os.path.getmtime, reverse=True)
-    for old in ds[3:]:
+    for old in ds[12:]:
         if old != d:
             shutil.rmtree(old, ignore_errors=True)
     os.utime(d, None)
